@@ -394,6 +394,34 @@ def h_jacobi_rotation(eng, i, j):
     eng.check(And(dvec[0] <= dvec[1], dvec[1] <= dvec[2], dvec[2] <= dvec[3]), "ascending")
 
 
+def table_exact_turns():
+    """find_coordinates on planar, mirror-symmetric three-atom templates whose structure copy is turned by a quarter
+    turn about the plane normal or by the axis-permuting third of a turn, with integer / dyadic coordinates (the
+    quaternion matrix then has an exactly zero diagonal, the case in which the Jacobi sweep must still rotate):
+    the placed atom is the rigid image.  Finite menu (table lemma: enumeration, not symbolic)."""
+    from pdb2pqr import quatfit
+
+    rows, violations = 0, []
+    templates = [[(1.0, 0.0, 0.0), (-1.0, 0.0, 0.0), (0.0, 2.0, 0.0)], [(0.5, 0.0, 0.0), (-0.5, 0.0, 0.0), (0.0, 0.75, 0.0)], [(2.0, 0.0, 0.0), (-2.0, 0.0, 0.0), (0.0, 0.0, 1.0)]]
+    atom = (0.25, 0.5, 1.5)
+    turns = {"quarter-z": lambda p: (-p[1], p[0], p[2]), "three-quarter-z": lambda p: (p[1], -p[0], p[2]), "third-111": lambda p: (p[2], p[0], p[1]), "two-thirds-111": lambda p: (p[1], p[2], p[0]), "quarter-y": lambda p: (p[2], p[1], -p[0]), "identity": lambda p: p, "half-z": lambda p: (-p[0], -p[1], p[2])}
+    shifts = [(0.0, 0.0, 0.0), (3.0, -2.0, 5.0), (4096.0, 0.0, -8.0)]
+    for ti, tmpl in enumerate(templates):
+        for tname, R in turns.items():
+            for sh in shifts:
+                rows += 1
+                struct = [tuple(R(p)[k] + sh[k] for k in range(3)) for p in tmpl]
+                want = tuple(R(atom)[k] + sh[k] for k in range(3))
+                try:
+                    got = quatfit.find_coordinates(3, [list(p) for p in struct], [list(p) for p in tmpl], list(atom))
+                    err = max(abs(float(got[k]) - want[k]) for k in range(3))
+                except Exception as e:  # noqa: BLE001
+                    err, got = float("inf"), f"{type(e).__name__}: {e}"
+                if not err < 1e-6:
+                    violations.append({"label": "placed-atom-is-the-rigid-image", "values": {"template": ti, "turn": tname, "shift": str(sh)}, "reproduced": True, "replay_detail": f"template {ti} turned by {tname}, shifted {sh}: placed at {got}, rigid image {want}"})
+    return {"table_rows": rows, "distinct": rows, "violations": violations, "samples": [{"rows": rows}]}
+
+
 def h_tetrahedral_movers(eng, resname, centre):
     """Residue.rotate_tetrahedral(atom1, atom2, angle) turns exactly the atoms bonded to atom2 other than atom1 -
     whichever bonded neighbour of atom2 is the axis partner, wherever it stands in atom2's bond list (selector);
@@ -503,6 +531,7 @@ def obligations(tier):
         obs.append(Obligation(f"dihedral-record-{resname}-chi{k + 1}", h_dihedral_record, dict(resname=resname, anglenum=k), group="dihedral-record", time_cap=600))
     for rec in (0.0, -0.0, 180.0):
         obs.append(Obligation(f"dihedral-record-LYS-chi2-from-{rec!r}", h_dihedral_record, dict(resname="LYS", anglenum=1, recorded=rec), group="dihedral-record", time_cap=600))
+    obs.append(Obligation("placement-exact-turns", table_exact_turns, {}, kind="table", group="placement"))
     obs.append(Obligation("jacobi-sorted-nonzero", h_jacobi_sorted, dict(zero_allowed=False), group="jacobi", time_cap=1200))
     obs.append(Obligation("jacobi-sorted-zero-allowed", h_jacobi_sorted, dict(zero_allowed=True), group="jacobi", time_cap=1200))
     return obs
@@ -536,7 +565,7 @@ META = dict(
 )
 
 MANIFEST = dict(
-    text="For C15: exact-real lemmas on terms produced by running the real quatfit/utilities functions on proxies - q2mat(q) orthogonal with det +1 and R(-q)=R(q) for every unit q; q^T.cmat.q = sum ref.(R(q).def) for every q and every point set (1-3 points; ties the sign/index conventions of qtrfit, q2mat and rotmol); find_coordinates = refcentre + R(q)(atom - defcentre) and translation-equivariant; qchichange = right-handed Rodrigues rotation preserving length and axial component for every unit axis and angle (abstract cos/sin) and for concrete angles beyond half a turn and beyond a full turn through the real math module; after set_dihedral_angle the recorded torsion is the torsion of the current coordinates (dihedral uninterpreted); rotating atom 4 by delta turns the (cos, sin) of the torsion measured by utilities.dihedral by exactly delta and keeps both axis distances; jacobi's no-sweep path leaves the largest eigenvalue's vector in the last column for every real diagonal. Round 4: rotate_tetrahedral turns exactly the substituents of atom2 other than the axis partner, wherever the partner stands in the bond list (selector).",
+    text="For C15: exact-real lemmas on terms produced by running the real quatfit/utilities functions on proxies - q2mat(q) orthogonal with det +1 and R(-q)=R(q) for every unit q; q^T.cmat.q = sum ref.(R(q).def) for every q and every point set (1-3 points; ties the sign/index conventions of qtrfit, q2mat and rotmol); find_coordinates = refcentre + R(q)(atom - defcentre) and translation-equivariant; qchichange = right-handed Rodrigues rotation preserving length and axial component for every unit axis and angle (abstract cos/sin) and for concrete angles beyond half a turn and beyond a full turn through the real math module; after set_dihedral_angle the recorded torsion is the torsion of the current coordinates (dihedral uninterpreted); rotating atom 4 by delta turns the (cos, sin) of the torsion measured by utilities.dihedral by exactly delta and keeps both axis distances; jacobi's no-sweep path leaves the largest eigenvalue's vector in the last column for every real diagonal. Round 4: rotate_tetrahedral turns exactly the substituents of atom2 other than the axis partner, wherever the partner stands in the bond list (selector). Round 5: a recorded torsion of exactly 0.0 / -0.0 / 180.0 does not stop the requested rotation.",
     note="Trusted: z3 (wheel 5.1.0 and /usr/bin/z3 4.8.12 must not disagree), exact reals for floats, cos/sin abstracted to the unit circle. The Jacobi sweep's convergence and floating-point tolerances are outside; that the top eigenvector maximises the quadratic form is assumed.",
     technique="polynomial lemmas over terms from the real code, decided by z3 QF_NRA (two builds); symbolic paths for jacobi's ordering",
     design="DESIGN.md section 3 C15",
